@@ -3,6 +3,17 @@ NOTES = ("Contract-based deductive verification with CBMC code contracts on the 
          "exit 0 = all obligations discharged, exit 1 = VIOLATION, exit 2 = undecided (tool limit / time-out / broken anchor).")
 NOT_CLAIMED = {}
 CLAIMS = {
+ "C12": dict(
+  text="print->parse round trip on the real irc_ntop/irc_pton: fits IRC_NTOP_MAX, NUL-terminated, never starts with ':', own parser and the "
+       "RFC 4291 reference parser read back exactly the (canonicalised) address, parse-then-print idempotent. Sharded by the zero-group pattern "
+       "(258 shards incl. IPv4-mapped/-compatible); inside a shard every non-zero group is fully symbolic, so the thorough tier covers all 2^128 "
+       "addresses. All loops are bounded by code constants (8 groups, 40 bytes) and unwound with unwinding assertions (width-complete).",
+  design_ref="§5 C12",
+  note="quick tier: 16 boundary shards restricted to one digit-length class each and to the core clauses - a slice, stated in evidence. "
+       "inet_pton itself is out of CBMC's reach: a reference parser stands in, differential-tested against glibc at setup. The static "
+       "dotted-quad parser is used through its contract (proved in C13.pton_ip4.quad.len16). Signed-shl overflow in 'ntohs(x) << 16' is not "
+       "treated as a violation (GCC defines it; C12 does not speak about it).",
+  technique="CBMC harness proof over real irc_ntop∘irc_pton per zero-pattern shard, callee by contract, width-complete unwinding"),
  "C19": dict(
   text="Stock comparators: contracts enforced over their whole key domain (int: all 2^64 pairs, pointers: all positions in one object; "
        "names: strings up to 8 bytes).  Tree operations: the inductive step 'well-formed set + one real operation => well-formed set "
